@@ -126,6 +126,8 @@ def run(tier, rep, ev):
                     where = line.strip().split("py7zr/")[-1].split(",")[0] + ":" + line.strip().split(" in ")[-1]
                     break
         key = ("delegated-codec:pyppmd:" + o.status) if ppmd else f"{o.status}:{fam.split(':')[0]}:{where or m['what'].split(' ')[0]}"
+        if m["what"].startswith("padded packed header: numfiles"):
+            key = "compound:numfiles-behind-zero-padding"        # (time or memory, wherever the stack stood: one input class)
         rep.violation(key, f"{fam}: {m['what']} with calls {m['seq']} {kind}. {o.detail[:600]}",
                       {"archive": fam, "what": m["what"], "seq": m["seq"], "image": c[0], "password": c[1]})
     ev.cov["outcomes"] = stats
